@@ -464,7 +464,7 @@ def units_C05(tier, seed):
                     bnd = 5
                 ex = ['-mbmi2'] if 1 in (a, b) else []
                 U += unit(f'c05_conv_{LAYNAME[a]}_{LAYNAME[b]}_{n}_{v}', H, f'conv_h<{a},{b},{n},{VEC[v]},{bnd}>()', extra=ex,
-                          sites=[1, 2, 3, 4, 5, 6, 7], flavours=('rel', 'san') if (n == 2 and a == 0) else ('rel',),
+                          sites=[1, 2, 3, 4, 5, 6, 7, 8, 9], flavours=('rel', 'san', 'dbg') if (n == 2 and a == 0) else ('rel',),
                           diff=(n == 2 and a == 0), weight=bnd ** n * 10, timeout=1800)
     # fixed larger extents whose maximum is not a power of two (storage sizing of the curves: 5x5, 3x3x3, ...)
     fixed = [(2, (5, 5, 0)), (2, (5, 3, 0)), (2, (6, 7, 0)), (3, (3, 3, 3)), (3, (3, 2, 3)), (1, (5, 0, 0))]
@@ -479,7 +479,7 @@ def units_C05(tier, seed):
             v = 'f2' if (a + b + n + e[0]) % 2 else 'd1'
             ex = ['-mbmi2'] if 1 in (a, b) else []
             U += unit(f'c05_convfixed_{LAYNAME[a]}_{LAYNAME[b]}_{"x".join(str(x) for x in e[:n])}_{v}', H,
-                      f'conv_fixed_h<{a},{b},{n},{VEC[v]},{e[0]},{e[1]},{e[2]}>()', extra=ex, sites=[1, 2, 3, 4, 5, 6, 7],
+                      f'conv_fixed_h<{a},{b},{n},{VEC[v]},{e[0]},{e[1]},{e[2]}>()', extra=ex, sites=[1, 2, 3, 4, 5, 6, 7, 8, 9],
                       weight=e[0] * max(1, e[1]) * max(1, e[2]), timeout=3000, cfg={'sym_cells_cap': 4096})
     for i1, l1, i2, l2 in ((0, 0, 1, 2), (1, 0, 0, 1), (1, 2, 1, 0), (0, 1, 0, 0), (1, 0, 1, 3), (0, 3, 1, 0)):
         for n in ((2,) if not th else (1, 2, 3)):
